@@ -42,9 +42,13 @@ Proof. unfold zlen. now rewrite (Permutation_length (np_sort_perm l)). Qed.
 Lemma zlen_arange0 n : 0 <= n -> zlen (np_arange 0 n) = n.
 Proof. intros H. unfold np_arange, zlen. rewrite map_length, seq_length. lia. Qed.
 
-Theorem sp_permute_bridge (self : sptz) (order : vec) : sptensor_permute self order = H_sp_permute self order.
+(* `order_isbool` = the dtype flag of the request (`order.dtype == bool`, /repo 9c8fdd5): a boolean order is rejected
+   whatever it holds; for an integer order the method is H_sp_permute *)
+Theorem sp_permute_bridge (self : sptz) (order : vec) (isbool : bool) :
+  sptensor_permute self order isbool = if isbool then Err else H_sp_permute self order.
 Proof.
   unfold sptensor_permute, H_sp_permute, spt_ndims, spt_make. cbv zeta.
+  destruct isbool; cbn [orb]; [reflexivity|].
   set (n := zlen (spt_shape self)). assert (Hn : 0 <= n) by (unfold n, zlen; lia).
   destruct (Z.eqb_spec n (zlen order)) as [E|E]; cbn [negb orb andb].
   - assert (El : zlen (np_sort order) = zlen (np_arange 0 n)) by (rewrite zlen_np_sort, zlen_arange0 by exact Hn; lia).
@@ -54,11 +58,18 @@ Proof.
   - reflexivity.
 Qed.
 
+Theorem sp_permute_bridge_int (self : sptz) (order : vec) : sptensor_permute self order false = H_sp_permute self order.
+Proof. exact (sp_permute_bridge self order false). Qed.
+
+(* a boolean order never reaches the column selection (where it would act as a mask) *)
+Theorem gen_sp_permute_bool_rejected (self : sptz) (order : vec) : sptensor_permute self order true = Err.
+Proof. exact (sp_permute_bridge self order true). Qed.
+
 (* accepted exactly on permutations of range(ndims) *)
 Theorem gen_sp_permute_rejects (self : sptz) (order : vec) :
-  np_sort order <> np_arange 0 (zlen (spt_shape self)) -> sptensor_permute self order = Err.
+  np_sort order <> np_arange 0 (zlen (spt_shape self)) -> sptensor_permute self order false = Err.
 Proof.
-  intros H. rewrite sp_permute_bridge. unfold H_sp_permute. cbv zeta.
+  intros H. rewrite sp_permute_bridge_int. unfold H_sp_permute. cbv zeta.
   destruct (zlist_eqb _ _) eqn:E; [|now rewrite andb_false_r]. apply zlist_eqb_eq in E. congruence.
 Qed.
 
@@ -67,10 +78,10 @@ Qed.
 Theorem gen_sp_permute_model (self t : sptz) (order : vec) :
   (forall row, In row (spt_subs self) -> forall s, In s row -> 0 <= s) -> (forall d, In d (spt_shape self) -> 0 <= d) ->
   np_size2 (spt_subs self) <> 0 ->
-  sptensor_permute self order = Ok t ->
+  sptensor_permute self order false = Ok t ->
   is_perm (nats order) (length (spt_shape self)) /\ permute_sp (to_Sp self) (nats order) = Some (to_Sp t).
 Proof.
-  intros Hsub Hshp Hz E. rewrite sp_permute_bridge in E. unfold H_sp_permute in E. cbv zeta in E.
+  intros Hsub Hshp Hz E. rewrite sp_permute_bridge_int in E. unfold H_sp_permute in E. cbv zeta in E.
   destruct (Z.eqb_spec (zlen (spt_shape self)) (zlen order)) as [El|]; [|discriminate]. cbn [andb] in E.
   destruct (zlist_eqb _ _) eqn:Es; [|discriminate]. apply zlist_eqb_eq in Es.
   assert (Hp : is_perm (nats order) (length (spt_shape self))) by (apply sorted_range_is_perm; exact Es).
@@ -91,9 +102,9 @@ Qed.
 
 (* nothing stored: the subscript and value arrays are handed on, only the shape is permuted *)
 Theorem gen_sp_permute_empty (self t : sptz) (order : vec) : np_size2 (spt_subs self) = 0 ->
-  sptensor_permute self order = Ok t -> t = mkspt (spt_subs self) (spt_vals self) (np_take 0 (spt_shape self) order).
+  sptensor_permute self order false = Ok t -> t = mkspt (spt_subs self) (spt_vals self) (np_take 0 (spt_shape self) order).
 Proof.
-  intros Hz E. rewrite sp_permute_bridge in E. unfold H_sp_permute in E. cbv zeta in E.
+  intros Hz E. rewrite sp_permute_bridge_int in E. unfold H_sp_permute in E. cbv zeta in E.
   destruct (_ && _); [|discriminate]. rewrite Hz in E. cbn [Z.eqb] in E. destruct (_ && _); [|discriminate]. now injection E as <-.
 Qed.
 
@@ -102,7 +113,7 @@ From PV Require Import Proofs.C07Proofs.
 Theorem gen_sp_permute_den (self t : sptz) (order : vec) :
   (forall row, In row (spt_subs self) -> forall s, In s row -> 0 <= s) -> (forall d, In d (spt_shape self) -> 0 <= d) ->
   np_size2 (spt_subs self) <> 0 -> (forall row, In row (spt_subs self) -> length row = length (spt_shape self)) ->
-  sptensor_permute self order = Ok t ->
+  sptensor_permute self order false = Ok t ->
   forall i, length i = length (spt_shape self) ->
             den_sp 0 (to_Sp t) i = den_sp 0 (to_Sp self) (pick 0%nat (invperm (nats order)) i).
 Proof.
